@@ -113,12 +113,12 @@ class DistributeMapper(IdentityMapper):
         from pymbolic.primitives import Sum
 
         newbase = self.rec(expr.base)
-        if isinstance(expr.base, Product):
+        if isinstance(newbase, Product):
             return self.rec(pymbolic.flattened_product([
-                child**expr.exponent for child in newbase
+                child**expr.exponent for child in newbase.children
                 ]))
 
-        if isinstance(expr.exponent, int):
+        if isinstance(expr.exponent, int) and expr.exponent > 0:
             if isinstance(newbase, Sum):
                 return self.map_product(
                         pymbolic.flattened_product(
